@@ -709,9 +709,9 @@ func run(sc *Scenario, diag bool) (res Result) {
 }
 
 // horizon: virtual time after which a cancelled timer-driven stage must have noticed the cancel.  Emit may still
-// win its send arm while the output buffer has room, so the horizon covers capacity+12 periods.
+// win its send arm while the output buffer has room, so the horizon covers 4*capacity+32 periods (value and error buffer).
 func (e *env) horizon() time.Duration {
-	return time.Duration((12+e.sc.Caps0())*max(e.sc.Interval, e.sc.Freq, 1)) * e.sc.unit()
+	return time.Duration((32+4*e.sc.Caps0())*max(e.sc.Interval, e.sc.Freq, 1)) * e.sc.unit()
 }
 
 // backpressure: at this quiescent point some producer is blocked or some input buffer is full.
